@@ -359,7 +359,7 @@ func TestWorker(t *testing.T) {
 		}
 		res := runOne(t, sc, prop, i, seedFor(base, prop, i), nil, keepLog)
 		agg.add(&res)
-		if res.Verdict != "ok" || len(res.Prog) > 0 || os.Getenv("VERIF_ALL_RESULTS") != "" {
+		if res.Verdict != "ok" || i < 4 || os.Getenv("VERIF_ALL_RESULTS") != "" {
 			enc.Encode(res)
 		}
 		if res.Verdict == "harness-panic" {
